@@ -3,8 +3,13 @@ package main
 import (
 	"bytes"
 	"fmt"
+	"math/rand"
 	"os"
 	"os/exec"
+	"regexp"
+	"runtime"
+	"sort"
+	"strconv"
 	"strings"
 	"time"
 
@@ -18,8 +23,12 @@ func init() {
 	streams["parfaultchild"] = parFaultChild
 }
 
+// Signature of the (candidate) finding "after a FAILING parallel preload the set of cached slabs
+// depends on the goroutine schedule" (see pfPreloadDecodeFailure).
+const sigPreloadCacheSchedule = "parallel-preload:cache-after-failure-schedule-dependent"
+
 // slowTV encodes slowly, so that encoder workers are still busy when the main goroutine of a
-// parallel commit returns early because of a ledger fault.
+// parallel commit returns early (ledger fault, encode failure of another slab).
 type slowTV struct{ hx.TV }
 
 func (s slowTV) Encode(e *atree.Encoder) error {
@@ -31,82 +40,407 @@ func (s slowTV) Storable(st atree.SlabStorage, a atree.Address, max uint32) (atr
 }
 func (s slowTV) StoredValue(atree.SlabStorage) (atree.Value, error) { return s, nil }
 
+// The child talks to its parent over stdout, one line per item:
+//
+//	PFS <scenario>            the scenario that starts now (the parent quotes the last one when the child dies)
+//	PFV <signature>|<what>    a violation found by an oracle of the child (signature may be empty)
+//	PFC <counter> <n>         evidence counter
+//	PARFAULT ok               all scenarios returned
+type pfChild struct {
+	rng      *rand.Rand
+	counters map[string]int
+}
+
+func (c *pfChild) scenario(format string, a ...any) { fmt.Println("PFS " + fmt.Sprintf(format, a...)) }
+func (c *pfChild) violation(sig, format string, a ...any) {
+	fmt.Println("PFV " + sig + "|" + strings.ReplaceAll(fmt.Sprintf(format, a...), "\n", " "))
+}
+func (c *pfChild) hit(k string) { c.counters[k]++ }
+
+// watched runs f under a watchdog.  A call that does not return is reported (with the stacks of the
+// goroutines that sit inside the library) and ends the child: the stuck goroutines cannot be removed.
+func (c *pfChild) watched(what string, d time.Duration, f func() error) error {
+	done := make(chan error, 1)
+	go func() { done <- f() }()
+	select {
+	case err := <-done:
+		return err
+	case <-time.After(d):
+		buf := make([]byte, 1<<20)
+		buf = buf[:runtime.Stack(buf, true)]
+		var stuck []string
+		for _, g := range strings.Split(string(buf), "\n\n") {
+			if !strings.Contains(g, "onflow/atree.") {
+				continue
+			}
+			lines := strings.Split(g, "\n")
+			desc := strings.TrimSuffix(lines[0], ":")
+			for j, l := range lines {
+				if strings.Contains(l, "onflow/atree.") && j+1 < len(lines) {
+					f := strings.Fields(lines[j+1])
+					if len(f) > 0 {
+						desc += " at " + f[0]
+					}
+					break
+				}
+			}
+			stuck = append(stuck, desc)
+		}
+		if len(stuck) > 4 {
+			stuck = append(stuck[:4], fmt.Sprintf("... %d more", len(stuck)-4))
+		}
+		c.violation("", "%s did not return within %v (hang); goroutines inside the library: %s", what, d, strings.Join(stuck, " || "))
+		c.flush()
+		fmt.Println("PARFAULT aborted")
+		os.Exit(0)
+		return nil
+	}
+}
+
+func (c *pfChild) flush() {
+	keys := make([]string, 0, len(c.counters))
+	for k := range c.counters {
+		keys = append(keys, k)
+	}
+	sort.Strings(keys)
+	for _, k := range keys {
+		fmt.Printf("PFC %s %d\n", k, c.counters[k])
+	}
+}
+
 // parFaultChild runs, in THIS process, parallel commits and preloads that fail midway.  A panic in
 // a worker goroutine (e.g. send on a closed channel) cannot be recovered: it kills the process,
-// which the parent reports.  Prints "PARFAULT ok <summary>" when everything returned normally.
+// which the parent reports together with the panic text.
 func parFaultChild(cfg *Config) *hx.Stats {
 	st := hx.NewStats("parfaultchild", cfg.Seed)
 	atree.VerifSetThreshold(1024)
-	var notes []string
+	c := &pfChild{rng: rand.New(rand.NewSource(cfg.Seed*7919 + 11)), counters: map[string]int{}}
+	oldProcs := runtime.GOMAXPROCS(0)
 	for round := 0; round < 6; round++ {
 		for _, nondet := range []bool{true, false} {
-			ledger := hx.NewLedger()
-			ps := hx.NewStorage(ledger)
-			for i := 0; i < 120; i++ {
-				id := hx.MkIDn(1, uint64(i+1))
-				if err := ps.Store(id, mustStorableSlab(id, slowTV{hx.TV{Size: 12, Pay: uint64(i)}})); err != nil {
-					panic(err)
-				}
-			}
-			ledger.ResetCalls()
-			ledger.FailAt[round%4] = true
-			var err error
-			if nondet {
-				err = ps.NondeterministicFastCommit(8)
-			} else {
-				err = ps.FastCommit(8)
-			}
-			if err == nil {
-				notes = append(notes, "commit with a failing ledger call returned nil")
-			} else if hx.ErrCategory(err) != "External" {
-				notes = append(notes, "ledger failure reported as "+hx.ErrKind(err))
-			}
-			time.Sleep(30 * time.Millisecond) // let stray workers run into whatever they run into
+			c.pfCommitLedgerFault(round, nondet)
 		}
-		// parallel preload with one corrupted register
-		ledger := hx.NewLedger()
-		ps := hx.NewStorage(ledger)
-		var ids []atree.SlabID
-		for i := 0; i < 40; i++ {
-			id := hx.MkIDn(1, uint64(i+1))
-			_ = ps.Store(id, mkSlab(id, i))
-			ids = append(ids, id)
+		for _, nondet := range []bool{false, true} {
+			// twice per commit function and round: once with mostly slow encoders (workers still encoding
+			// when the commit returns), once with fast ones on few processors (result queue filling up)
+			c.pfCommitEncodeFailure(nondet, true)
+			c.pfCommitEncodeFailure(nondet, false)
 		}
-		_ = ps.FastCommit(4)
-		ledger.Seg[ids[round*3%40]] = []byte{0x10}
-		seq := hx.NewStorage(ledger)
-		errSeq := seq.BatchPreload(ids[round*3%40:round*3%40+1], 1)
-		par := hx.NewStorage(ledger)
-		ledger.Jitter = true
-		errPar := par.BatchPreload(ids, 8)
-		ledger.Jitter = false
-		if (errSeq == nil) != (errPar == nil) || (errSeq != nil && hx.ErrKind(errSeq) != hx.ErrKind(errPar)) {
-			notes = append(notes, fmt.Sprintf("parallel preload error %v differs from sequential %v", errPar, errSeq))
-		}
-		time.Sleep(30 * time.Millisecond)
-		// parallel preload with a ledger READ that fails: the error must come back (no hang, no leak
-		// of blocked workers), and be the one the sequential path reports
-		ledger.Seg[ids[round*3%40]] = append([]byte(nil), ledger.Seg[ids[(round*3+1)%40]]...)
-		ledger.ReadFail = map[atree.SlabID]bool{ids[(round*7+5)%40]: true}
-		seq2 := hx.NewStorage(ledger)
-		errSeq2 := seq2.BatchPreload(ids[(round*7+5)%40:(round*7+5)%40+1], 1)
-		par2 := hx.NewStorage(ledger)
-		done := make(chan error, 1)
-		go func() { done <- par2.BatchPreload(ids, 4+round) }()
-		select {
-		case errPar2 := <-done:
-			if errPar2 == nil || errSeq2 == nil || hx.ErrCategory(errPar2) != "External" {
-				notes = append(notes, fmt.Sprintf("parallel preload with a failing ledger read returned %v (sequential: %v)", errPar2, errSeq2))
-			}
-		case <-time.After(3 * time.Second):
-			notes = append(notes, "parallel preload with a failing ledger read did not return within 3 s")
-		}
-		ledger.ReadFail = map[atree.SlabID]bool{}
+		runtime.GOMAXPROCS(oldProcs)
+		c.pfPreloadDecodeFailure(round)
+		c.pfPreloadReadFailure(round)
 	}
-	fmt.Println("PARFAULT ok " + strings.Join(notes, "; "))
+	c.flush()
+	fmt.Println("PARFAULT ok")
 	st.Programs = 1
 	return st
 }
+
+func commitName(nondet bool) string {
+	if nondet {
+		return "NondeterministicFastCommit"
+	}
+	return "FastCommit"
+}
+
+// pfCommitLedgerFault: 120 slow-encoding slabs, 8 workers, a ledger fault at call 0..3.
+func (c *pfChild) pfCommitLedgerFault(round int, nondet bool) {
+	c.scenario("%s(8) of 120 slow-encoding slabs with a ledger fault at call %d", commitName(nondet), round%4)
+	ledger := hx.NewLedger()
+	ps := hx.NewStorage(ledger)
+	for i := 0; i < 120; i++ {
+		id := hx.MkIDn(1, uint64(i+1))
+		if err := ps.Store(id, mustStorableSlab(id, slowTV{hx.TV{Size: 12, Pay: uint64(i)}})); err != nil {
+			panic(err)
+		}
+	}
+	ledger.ResetCalls()
+	ledger.FailAt[round%4] = true
+	err := c.watched(commitName(nondet)+" with a failing ledger call", 10*time.Second, func() error {
+		if nondet {
+			return ps.NondeterministicFastCommit(8)
+		}
+		return ps.FastCommit(8)
+	})
+	if err == nil {
+		c.violation("", "commit with a failing ledger call returned nil")
+	} else if hx.ErrCategory(err) != "External" {
+		c.violation("", "ledger failure reported as "+hx.ErrKind(err))
+	}
+	c.hit("commit-ledger-fault")
+	time.Sleep(30 * time.Millisecond) // let stray workers run into whatever they run into
+}
+
+// pfCommitEncodeFailure: many slabs, ONE of which cannot be encoded, at a random position of the
+// (sorted) write set; many workers; random GOMAXPROCS.  The commit takes its encode-error early
+// return while the other workers are busy: it must return that error (no hang: the result queue
+// must have room for what the remaining workers still send; no crash: the queue must not be closed
+// before they stopped), write nothing it should not, and keep everything pending.
+func (c *pfChild) pfCommitEncodeFailure(nondet bool, slow bool) {
+	n := 60 + c.rng.Intn(240)
+	pos := c.rng.Intn(n)
+	workers := []int{4, 8, 16, 64}[c.rng.Intn(4)]
+	procs := []int{2, 4, 16}[c.rng.Intn(3)]
+	slowPct := 90
+	if !slow {
+		// fast encoders, more goroutines than processors: results pile up in the queue before the
+		// collecting goroutine runs
+		procs = 1 + c.rng.Intn(2)
+		slowPct = c.rng.Intn(2) * 10
+	}
+	runtime.GOMAXPROCS(procs)
+	what := fmt.Sprintf("%s(%d) of %d slabs (%d%% slow to encode) with an unencodable slab at position %d, GOMAXPROCS=%d",
+		commitName(nondet), workers, n, slowPct, pos, procs)
+	c.scenario("%s", what)
+	ledger := hx.NewLedger()
+	ledger.Jitter = c.rng.Intn(2) == 0
+	ps := hx.NewStorage(ledger)
+	want := map[atree.SlabID]int{}
+	for i := 0; i < n; i++ {
+		id := hx.MkIDn(uint64(1+i*2/n), uint64(i+1)) // two owners; (owner, index) order = i
+		var s atree.Storable
+		switch {
+		case i == pos:
+			s = badStorable{hx.TV{Size: 12, Pay: verBad}}
+		case c.rng.Intn(100) < slowPct:
+			s = slowTV{hx.TV{Size: 12, Pay: uint64(i)}}
+		default:
+			s = hx.TV{Size: 12, Pay: uint64(i)}
+		}
+		want[id] = i
+		if err := ps.Store(id, mustStorableSlab(id, s)); err != nil {
+			panic(err)
+		}
+	}
+	// a temporary slab and a few pending deletions of absent registers ride along
+	_ = ps.Store(hx.MkIDn(0, 1), mkSlab(hx.MkIDn(0, 1), 1))
+	nDel := c.rng.Intn(3)
+	for i := 0; i < nDel; i++ {
+		_ = ps.Remove(hx.MkIDn(3, uint64(i+1)))
+	}
+	ledger.ResetCalls()
+	err := c.watched(what, 10*time.Second, func() error {
+		if nondet {
+			return ps.NondeterministicFastCommit(workers)
+		}
+		return ps.FastCommit(workers)
+	})
+	c.hit("commit-encode-failure:" + commitName(nondet))
+	switch {
+	case err == nil:
+		c.violation("", "%s: returned nil", what)
+	case hx.ErrKind(err) != "Other:External":
+		// the failure comes from the caller's Storable.Encode
+		c.violation("", "%s: the encode failure of a caller-supplied storable is reported as %s", what, hx.ErrKind(err))
+	}
+	// what was written: the deterministic commit encodes everything before its first ledger call;
+	// the order-relaxed one may have deleted and stored what arrived before the failing result
+	stored := 0
+	for _, call := range ledger.Log {
+		if !nondet {
+			c.violation("", "%s: issued the ledger call %c:%s although encoding failed", what, call.Kind, hx.IDStr(call.ID))
+			break
+		}
+		if call.Kind == 'S' {
+			stored++
+			i, ok := want[call.ID]
+			s, derr := atree.DecodeSlab(call.ID, call.Data, hx.DecMode(), hx.DecodeStorable, hx.DecodeTypeInfo)
+			if !ok || i == pos || derr != nil || slabVer(s) != fmt.Sprint(i) {
+				c.violation("", "%s: wrote a wrong register %s", what, hx.IDStr(call.ID))
+			}
+			delete(want, call.ID)
+		} else if call.ID.AddressAsUint64() != 3 {
+			c.violation("", "%s: removed %s", what, hx.IDStr(call.ID))
+		}
+	}
+	if stored > 0 {
+		c.hit("commit-encode-failure:stores-before-the-failure")
+	}
+	deltas := atree.VerifDeltas(ps)
+	for id, i := range want {
+		if d, ok := deltas[id]; !ok || d == nil || (i != pos && slabVer(d) != fmt.Sprint(i)) {
+			c.violation("", "%s: %s is neither durable nor pending afterwards", what, hx.IDStr(id))
+			break
+		}
+	}
+	if _, ok := deltas[hx.MkIDn(0, 1)]; !ok {
+		c.violation("", "%s: the temporary slab left the write set", what)
+	}
+	time.Sleep(20 * time.Millisecond) // stray workers that outlive the call crash the process here
+}
+
+// pfPreloadDecodeFailure: parallel preload (>= 11 identifiers) with ONE corrupted register.
+// Oracles: the error is the decoder's (same as the sequential path gives), only requested identifiers
+// are cached, every cached entry is the decoding of its register, the corrupted one is not cached.
+// And the property's claim "same cache as one goroutine": with one worker the results arrive in
+// request order, so exactly the identifiers before the corrupted one are cached; with more workers
+// the set is compared with that.
+func (c *pfChild) pfPreloadDecodeFailure(round int) {
+	const n = 40
+	ledger := hx.NewLedger()
+	ps := hx.NewStorage(ledger)
+	var ids []atree.SlabID
+	for i := 0; i < n; i++ {
+		id := hx.MkIDn(1, uint64(i+1))
+		_ = ps.Store(id, mkSlab(id, i))
+		ids = append(ids, id)
+	}
+	// a register that is not requested
+	other := hx.MkIDn(2, 1)
+	_ = ps.Store(other, mkSlab(other, 77))
+	if err := ps.FastCommit(4); err != nil {
+		panic(err)
+	}
+	k := 5 + c.rng.Intn(n-10)
+	ledger.Seg[ids[k]] = []byte{0x10}
+	seq := hx.NewStorage(ledger)
+	errSeq := seq.BatchPreload(ids[k:k+1], 1)
+	if errSeq == nil || hx.ErrCategory(errSeq) != "Fatal" {
+		c.violation("", "sequential preload of an undecodable register returned %v", errSeq)
+	}
+	cachedSets := map[string]int{}
+	var oneWorker string
+	for _, workers := range []int{1, 1, 2, 3, 8, 8, 8, 64, 64} {
+		what := fmt.Sprintf("BatchPreload(%d identifiers, %d workers) with the register at position %d corrupted", n, workers, k)
+		c.scenario("%s", what)
+		runtime.GOMAXPROCS([]int{2, 4, 16}[c.rng.Intn(3)])
+		par := hx.NewStorage(ledger)
+		ledger.Jitter = workers > 1
+		errPar := c.watched(what, 10*time.Second, func() error { return par.BatchPreload(ids, workers) })
+		ledger.Jitter = false
+		c.hit("preload-decode-failure")
+		if errPar == nil || errSeq == nil || hx.ErrKind(errSeq) != hx.ErrKind(errPar) {
+			c.violation("", "%s: error %v differs from the sequential path's %v", what, errPar, errSeq)
+		}
+		cache := atree.VerifCache(par)
+		var got []string
+		for i, id := range ids {
+			s, ok := cache[id]
+			if !ok {
+				continue
+			}
+			got = append(got, strconv.Itoa(i))
+			ref, found, rerr := hx.NewStorage(ledger).Retrieve(id)
+			if i == k || s == nil || rerr != nil || !found || atree.VerifDumpSlab(s, hx.Describe) != atree.VerifDumpSlab(ref, hx.Describe) {
+				c.violation("", "%s: the cache entry of %s is not the decoding of its register", what, hx.IDStr(id))
+			}
+		}
+		if len(got) != len(cache) {
+			c.violation("", "%s: cached an identifier that was not requested (%d entries, %d of them requested)", what, len(cache), len(got))
+		}
+		if len(atree.VerifDeltas(par)) != 0 {
+			c.violation("", "%s: the write set is not empty", what)
+		}
+		set := strings.Join(got, ",")
+		if workers == 1 {
+			if oneWorker != "" && set != oneWorker {
+				c.violation("", "%s: two runs with ONE worker cached different sets", what)
+			}
+			oneWorker = set
+			var prefix []string
+			for i := 0; i < k; i++ {
+				prefix = append(prefix, strconv.Itoa(i))
+			}
+			if set != strings.Join(prefix, ",") {
+				c.violation("", "%s: one worker cached {%s}, expected the %d identifiers before the corrupted one", what, set, k)
+			}
+		} else {
+			cachedSets[set]++
+			c.hit("preload-decode-failure:compared-with-one-worker")
+			if set != oneWorker {
+				c.hit("preload-decode-failure:cache-differs-from-one-worker")
+			}
+		}
+		time.Sleep(10 * time.Millisecond)
+	}
+	runtime.GOMAXPROCS(16)
+	if len(cachedSets) > 1 || (len(cachedSets) == 1 && cachedSets[oneWorker] == 0) {
+		bySize := map[int]int{}
+		for s, cnt := range cachedSets {
+			sz := 0
+			if s != "" {
+				sz = strings.Count(s, ",") + 1
+			}
+			bySize[sz] += cnt
+		}
+		var sizes []string
+		for sz, cnt := range bySize {
+			sizes = append(sizes, fmt.Sprintf("%d entries in %d runs", sz, cnt))
+		}
+		sort.Strings(sizes)
+		sizes = append(sizes, fmt.Sprintf("%d distinct sets", len(cachedSets)))
+		c.violation(sigPreloadCacheSchedule,
+			"BatchPreload of %d registers with the one at position %d undecodable: the error is the same for every worker count, but the set of slabs left in the cache is not the one a single worker leaves (the %d before the corrupted one): %s (every entry is a correct decoding; which ones are present depends on the arrival order of the decoder results)",
+			n, k, k, strings.Join(sizes, ", "))
+	}
+}
+
+// pfPreloadReadFailure: parallel preload with a ledger READ that fails: the error must come back as
+// External (no hang, no leak of blocked workers).  Observation (not a violation): the parallel path
+// returns before it processes any result, so nothing is cached, whereas the sequential path (< 11
+// identifiers) keeps the identifiers it had decoded before the failing read.
+func (c *pfChild) pfPreloadReadFailure(round int) {
+	const n = 40
+	ledger := hx.NewLedger()
+	ps := hx.NewStorage(ledger)
+	var ids []atree.SlabID
+	for i := 0; i < n; i++ {
+		id := hx.MkIDn(1, uint64(i+1))
+		_ = ps.Store(id, mkSlab(id, i))
+		ids = append(ids, id)
+	}
+	if err := ps.FastCommit(4); err != nil {
+		panic(err)
+	}
+	k := c.rng.Intn(n)
+	ledger.ReadFail = map[atree.SlabID]bool{ids[k]: true}
+	for _, workers := range []int{1, 4 + round, 64} {
+		what := fmt.Sprintf("BatchPreload(%d identifiers, %d workers) with a failing ledger read at position %d", n, workers, k)
+		c.scenario("%s", what)
+		par := hx.NewStorage(ledger)
+		err := c.watched(what, 10*time.Second, func() error { return par.BatchPreload(ids, workers) })
+		c.hit("preload-read-failure")
+		if err == nil || hx.ErrKind(err) != "Injected:External" {
+			c.violation("", "%s: returned %v", what, err)
+		}
+		if m := len(atree.VerifCache(par)); m != 0 {
+			// would be news: the parallel path returns before the first result is processed
+			c.hit("preload-read-failure:parallel-path-cached-something")
+		} else if k > 0 {
+			c.hit("preload-read-failure:parallel-path-cached-nothing")
+		}
+		time.Sleep(10 * time.Millisecond)
+	}
+	// the sequential path over a window of 10 identifiers around the failing one
+	lo := k - c.rng.Intn(10)
+	if lo < 0 {
+		lo = 0
+	}
+	hi := lo + 10
+	if hi > n {
+		hi = n
+	}
+	seq := hx.NewStorage(ledger)
+	err := seq.BatchPreload(ids[lo:hi], 8)
+	if err == nil || hx.ErrKind(err) != "Injected:External" {
+		c.violation("", "sequential preload with a failing ledger read returned %v", err)
+	}
+	cache := atree.VerifCache(seq)
+	if len(cache) != k-lo {
+		c.violation("", "sequential preload with a failing ledger read at position %d of the request cached %d entries", k-lo, len(cache))
+	}
+	for i := lo; i < k; i++ {
+		if s := cache[ids[i]]; s == nil || slabVer(s) != fmt.Sprint(i) {
+			c.violation("", "sequential preload with a failing ledger read: wrong cache entry for %s", hx.IDStr(ids[i]))
+		}
+	}
+	if k-lo > 0 {
+		c.hit("preload-read-failure:sequential-path-kept-predecessors")
+	}
+	ledger.ReadFail = map[atree.SlabID]bool{}
+}
+
+var panicLine = regexp.MustCompile(`(?m)^(panic:|fatal error:).*$`)
 
 func parFaultStream(cfg *Config) *hx.Stats {
 	st := hx.NewStats("parfault", cfg.Seed)
@@ -119,32 +453,76 @@ func parFaultStream(cfg *Config) *hx.Stats {
 	if n > 20 {
 		n = 20
 	}
+	if n < 1 {
+		n = 1
+	}
+	seenSig := map[string]bool{}
 	for i := 0; i < n; i++ {
-		cmd := exec.Command(exe, "-streams", "parfaultchild", "-seed", fmt.Sprint(cfg.Seed+int64(i)), "-out", cfg.Out)
+		cmd := exec.Command(exe, "-streams", "parfaultchild", "-seed", fmt.Sprint(cfg.Seed*100+int64(i)), "-out", cfg.Out)
 		var out, errb bytes.Buffer
 		cmd.Stdout, cmd.Stderr = &out, &errb
 		runErr := cmd.Run()
 		st.Programs++
-		st.Ops += 18
-		st.Hit("faulty-parallel-commit")
-		if runErr != nil || !strings.Contains(out.String(), "PARFAULT ok") {
-			tail := errb.String()
-			if len(tail) > 600 {
-				tail = tail[:600]
+		lastScenario := "(start)"
+		nViol := 0
+		finished := false
+		for _, line := range strings.Split(out.String(), "\n") {
+			switch {
+			case strings.HasPrefix(line, "PFS "):
+				lastScenario = line[4:]
+				st.Ops++
+			case strings.HasPrefix(line, "PFC "):
+				f := strings.Fields(line)
+				if len(f) == 3 {
+					v, _ := strconv.Atoi(f[2])
+					st.Dist[f[1]] += v
+				}
+			case strings.HasPrefix(line, "PFV "):
+				sig, what, _ := strings.Cut(line[4:], "|")
+				nViol++
+				if sig != "" && seenSig[sig] {
+					continue // one report per signature and run
+				}
+				seenSig[sig] = seenSig[sig] || sig != ""
+				st.Violations = append(st.Violations, hx.Violation{Property: "C16", Stream: "parfault", Seed: cfg.Seed, Program: i, What: what, Sig: sig})
+			case strings.HasPrefix(line, "PARFAULT ok"), strings.HasPrefix(line, "PARFAULT aborted"):
+				finished = true
 			}
-			st.Violations = append(st.Violations, hx.Violation{Property: "C16", Stream: "parfault", Seed: cfg.Seed, Program: i,
-				What: "a parallel commit/preload that fails midway crashed the process instead of returning the error: " + strings.ReplaceAll(tail, "\n", " | ")})
+		}
+		if strings.Contains(errb.String(), "WARNING: DATA RACE") {
+			// a -race build of this binary: hand the report to the caller (which looks for this text)
+			rep := errb.String()
+			rep = rep[strings.Index(rep, "WARNING: DATA RACE"):]
+			if len(rep) > 3000 {
+				rep = rep[:3000]
+			}
+			fmt.Fprintln(os.Stderr, rep)
 			continue
 		}
-		line := out.String()[strings.Index(out.String(), "PARFAULT ok")+len("PARFAULT ok"):]
-		if j := strings.Index(line, "\n"); j >= 0 {
-			line = line[:j]
-		}
-		if strings.TrimSpace(line) != "" {
-			st.Violations = append(st.Violations, hx.Violation{Property: "C16", Stream: "parfault", Seed: cfg.Seed, Program: i, What: strings.TrimSpace(line)})
+		if (runErr != nil || !finished) && nViol == 0 {
+			text := errb.String()
+			head := panicLine.FindString(text)
+			if head == "" {
+				head = fmt.Sprintf("exit: %v", runErr)
+			}
+			// the first goroutine that sits in the library, for the location
+			where := ""
+			for _, g := range strings.Split(text, "\n\n") {
+				if j := strings.Index(g, "onflow/atree."); j >= 0 {
+					rest := g[j:]
+					lines := strings.SplitN(rest, "\n", 3)
+					where = strings.TrimSpace(lines[0])
+					if len(lines) > 1 {
+						where += " " + strings.TrimSpace(lines[1])
+					}
+					break
+				}
+			}
+			st.Violations = append(st.Violations, hx.Violation{Property: "C16", Stream: "parfault", Seed: cfg.Seed, Program: i,
+				What: "a parallel commit/preload that fails midway crashed the process instead of returning the error: " + head + " [" + where + "] during: " + lastScenario})
 		}
 	}
-	st.Distinct = st.Programs + 1
-	st.Samples = append(st.Samples, "child process: 120 slow-encoding slabs, FastCommit / NondeterministicFastCommit with 8 workers and a ledger fault at call 0..3; BatchPreload of 40 registers (one corrupted; one whose ledger read fails, under a watchdog) with several workers and ledger jitter vs the sequential error")
+	st.Distinct = st.Ops + 1
+	st.Samples = append(st.Samples, "child processes (watchdog 10 s per call): FastCommit / NondeterministicFastCommit of 120 slow-encoding slabs, 8 workers, ledger fault at call 0..3; both commits over 60-300 slabs (slow and fast encoders) with ONE unencodable slab at a random position, 4-64 workers, GOMAXPROCS 1-16; BatchPreload of 40 registers with one corrupted (error, cached subset of requested, cached = decoding, cache compared with the single-worker run) and with one failing ledger read")
 	return st
 }
